@@ -1814,6 +1814,11 @@ func (c *Client) doSetup(
 		header["Require"] = base.HeaderValue{"www.onvif.org/ver20/backchannel"}
 	}
 
+	// Media.URL() returns a nil URL when the control attribute cannot be parsed.
+	if mediaURL == nil {
+		return nil, fmt.Errorf("invalid media URL")
+	}
+
 	if hasH264PacketizationMode0(medi.Formats) &&
 		((c.state != clientStateInitial && c.state != clientStatePrePlay) || protocol != ProtocolTCP) {
 		return nil, liberrors.ErrClientH264PacketizationMode0{}
@@ -1868,11 +1873,6 @@ func (c *Client) doSetup(
 		}
 
 		header["KeyMgmt"] = enc
-	}
-
-	// Media.URL() returns a nil URL when the control attribute cannot be parsed.
-	if mediaURL == nil {
-		return nil, fmt.Errorf("invalid media URL")
 	}
 
 	res, err := c.do(&base.Request{
